@@ -8,5 +8,6 @@ for d in seeded/C*/; do
   out=$(VERIF_SEED=${1:-1} ./check $id quick 2>&1); rc=$?
   git -C /repo checkout -- .
   echo "$name check=$id rc=$rc $(echo "$out" | grep -E 'clause=' | head -1 | cut -c1-160)"
+  echo "$out" | grep -E 'clauses fired:' | head -1 | sed "s/^/    $name /"
 done
 git -C /repo status --short | head -3
